@@ -324,3 +324,267 @@ Proof.
 Qed.
 
 End Own.
+
+(* ---------- an object is in a pool xor held by exactly one goroutine ---------- *)
+
+Fixpoint cnt (x : nat) (l : list nat) : nat :=
+  match l with [] => O | y :: l' => ((if Nat.eqb x y then 1 else 0) + cnt x l')%nat end.
+Definition one (x y : nat) : nat := if Nat.eqb x y then 1%nat else 0%nat.
+
+Lemma cnt_app : forall x l1 l2, cnt x (l1 ++ l2) = (cnt x l1 + cnt x l2)%nat.
+Proof. induction l1; intros; cbn; [reflexivity|]. rewrite IHl1. lia. Qed.
+
+Lemma cnt_flat_map_upd : forall {A} (f : A -> list nat) x l i y z,
+  nth_error l i = Some z ->
+  (cnt x (flat_map f (upd_nth i y l)) + cnt x (f z) = cnt x (flat_map f l) + cnt x (f y))%nat.
+Proof.
+  intros A f x l. induction l as [|a l IH]; intros i y z H; [destruct i; discriminate|].
+  destruct i; cbn in *.
+  - inversion H; subst. rewrite !cnt_app. lia.
+  - rewrite !cnt_app. specialize (IH i y z H). lia.
+Qed.
+Lemma upd_nth_out : forall {A} (l : list A) i y, nth_error l i = None -> upd_nth i y l = l.
+Proof. induction l as [|a l IH]; intros i y H; [destruct i; reflexivity|]. destruct i; cbn in *; [discriminate|]. f_equal; auto. Qed.
+Lemma nth_error_nth' : forall {A} (l : list A) i d z, nth_error l i = Some z -> nth i l d = z.
+Proof. induction l; destruct i; cbn; intros; try discriminate; [congruence|eauto]. Qed.
+Lemma nth_error_none_nth : forall {A} (l : list A) i d, nth_error l i = None -> nth i l d = d.
+Proof. induction l; destruct i; cbn; intros; try discriminate; auto. Qed.
+
+Lemma cnt_remove_nth : forall {A} (f : A -> nat) x l i z,
+  nth_error l i = Some z -> (cnt x (map f (remove_nth i l)) + one x (f z) = cnt x (map f l))%nat.
+Proof.
+  intros A f x l. induction l as [|a l IH]; intros i z H; [destruct i; discriminate|].
+  destruct i; cbn in *.
+  - inversion H; subst. unfold one. lia.
+  - specialize (IH i z H). lia.
+Qed.
+Lemma cnt_remove_id : forall x y l, owns y l = true -> (cnt x (remove_id y l) + one x y = cnt x l)%nat.
+Proof.
+  intros x y l. induction l as [|a l IH]; intros H; [discriminate|].
+  unfold owns in H. cbn in H. cbn [remove_id]. destruct (Nat.eqb_spec y a) as [->|N].
+  - cbn. unfold one. lia.
+  - cbn in H. specialize (IH H). cbn. lia.
+Qed.
+
+Definition runner_ids (g : gstate) : list nat := flat_map (fun rs => map r_id (rs_pool rs)) (g_res g).
+Definition buf_ids (bp : bufpools) : list nat := flat_map (map b_id) (bp_pools bp).
+Definition pool_ids (g : gstate) : list nat := runner_ids g ++ buf_ids (g_rune g) ++ buf_ids (g_byte g).
+Definition held (ts : list thread) : list nat := flat_map t_owned ts.
+
+(* every identity occurs at most once among the pools and the goroutines' holdings, and is older than g_next *)
+Definition uniq (g : gstate) (ts : list thread) : Prop :=
+  forall x, (cnt x (pool_ids g) + cnt x (held ts) <= 1)%nat /\
+            ((1 <= cnt x (pool_ids g) + cnt x (held ts))%nat -> (x < g_next g)%nat).
+
+(* effect of each atomic action on the identities in the pools: [taken x] / [given x] are 0 or 1 *)
+Lemma get_runner_ids : forall g re pk,
+  let '(g1, r) := act_get_runner g re pk in
+  (g_next g1 = g_next g /\ forall x, (cnt x (pool_ids g1) + one x (r_id r) = cnt x (pool_ids g))%nat) \/
+  (g_next g1 = S (g_next g) /\ r_id r = g_next g /\ pool_ids g1 = pool_ids g).
+Proof.
+  intros g re pk. unfold act_get_runner.
+  destruct (take pk (rs_pool (get_rs g re))) as [[r rest]|] eqn:T; [left|right; auto].
+  split; [reflexivity|]. intros x. unfold take in T. destruct pk as [i|]; [|discriminate].
+  destruct (nth_error (rs_pool (get_rs g re)) i) as [r0|] eqn:N; [|discriminate]. inversion T; subst r0 rest. clear T.
+  unfold pool_ids, runner_ids, set_rs; cbn [g_res g_rune g_byte]. rewrite !cnt_app.
+  destruct (nth_error (g_res g) re) as [rs|] eqn:NR.
+  - pose proof (cnt_flat_map_upd (fun rs => map r_id (rs_pool rs)) x (g_res g) re
+                  {| rs_pool := remove_nth i (rs_pool (get_rs g re)); rs_cache := rs_cache (get_rs g re) |} rs NR) as U.
+    cbn [rs_pool] in U.
+    assert (GR : get_rs g re = rs) by (unfold get_rs; eapply nth_error_nth'; eauto).
+    rewrite GR in *. pose proof (cnt_remove_nth r_id x (rs_pool rs) i r N). lia.
+  - exfalso. unfold get_rs in N. rewrite (nth_error_none_nth _ _ _ NR) in N. destruct i; discriminate.
+Qed.
+
+Lemma put_runner_ids : forall g re r x,
+  g_next (act_put_runner g re r) = g_next g /\
+  (cnt x (pool_ids (act_put_runner g re r)) <= cnt x (pool_ids g) + one x (r_id r))%nat.
+Proof.
+  intros g re r x. unfold act_put_runner. split; [reflexivity|].
+  unfold pool_ids, runner_ids, set_rs; cbn [g_res g_rune g_byte]. rewrite !cnt_app.
+  destruct (nth_error (g_res g) re) as [rs|] eqn:NR.
+  - pose proof (cnt_flat_map_upd (fun rs => map r_id (rs_pool rs)) x (g_res g) re
+                  {| rs_pool := r :: rs_pool (get_rs g re); rs_cache := rs_cache (get_rs g re) |} rs NR) as U.
+    cbn [rs_pool map cnt] in U.
+    assert (GR : get_rs g re = rs) by (unfold get_rs; eapply nth_error_nth'; eauto).
+    rewrite GR in *. unfold one. lia.
+  - rewrite (upd_nth_out _ _ _ NR). lia.
+Qed.
+
+Lemma cache_ids : forall g re rs',
+  rs_pool rs' = rs_pool (get_rs g re) -> pool_ids (set_rs g re rs') = pool_ids g /\ g_next (set_rs g re rs') = g_next g.
+Proof.
+  intros g re rs' H. split; [|reflexivity]. unfold pool_ids, runner_ids, set_rs; cbn [g_res g_rune g_byte]. f_equal.
+  unfold get_rs in H. revert re H. generalize (g_res g). induction l as [|a l IH]; intros re H; [destruct re; reflexivity|].
+  destruct re; cbn in *; [rewrite H; reflexivity|]. f_equal. apply IH; assumption.
+Qed.
+
+Lemma set_bp_ids : forall g bk bp x,
+  (cnt x (pool_ids (set_bp g bk bp)) + cnt x (buf_ids (get_bp g bk)) = cnt x (pool_ids g) + cnt x (buf_ids bp))%nat /\
+  g_next (set_bp g bk bp) = g_next g.
+Proof.
+  intros g [] bp x; unfold pool_ids, runner_ids, set_bp, get_bp; cbn [g_res g_rune g_byte g_next]; rewrite !cnt_app;
+    (split; [lia|reflexivity]).
+Qed.
+
+Lemma buf_ids_upd : forall bp idx l x z,
+  nth_error (bp_pools bp) idx = Some z ->
+  (cnt x (buf_ids {| bp_sizes := bp_sizes bp; bp_pools := upd_nth idx l (bp_pools bp) |}) + cnt x (map b_id z)
+   = cnt x (buf_ids bp) + cnt x (map b_id l))%nat.
+Proof. intros. unfold buf_ids; cbn [bp_pools]. apply cnt_flat_map_upd; assumption. Qed.
+
+Lemma get_buf_ids : forall g bk n m pk,
+  let '(g1, b, pooled) := act_get_buf g bk n m pk in
+  (g_next g1 = g_next g /\ forall x, (cnt x (pool_ids g1) + one x (b_id b) = cnt x (pool_ids g))%nat) \/
+  (g_next g1 = S (g_next g) /\ b_id b = g_next g /\ forall x, (cnt x (pool_ids g1) <= cnt x (pool_ids g))%nat).
+Proof.
+  intros g bk n m pk. unfold act_get_buf.
+  destruct (pool_index (bp_sizes (get_bp g bk)) n m) as [idx|]; [|right; cbn; auto].
+  destruct (take pk (nth idx (bp_pools (get_bp g bk)) [])) as [[b rest]|] eqn:T; [|right; cbn; auto].
+  unfold take in T. destruct pk as [i|]; [|discriminate].
+  destruct (nth_error (nth idx (bp_pools (get_bp g bk)) []) i) as [b0|] eqn:N; [|discriminate]. inversion T; subst b0 rest. clear T.
+  destruct (nth_error (bp_pools (get_bp g bk)) idx) as [z|] eqn:NZ.
+  2:{ exfalso. rewrite (nth_error_none_nth _ _ _ NZ) in N. destruct i; discriminate. }
+  rewrite (nth_error_nth' _ _ [] _ NZ) in *.
+  set (bp1 := {| bp_sizes := bp_sizes (get_bp g bk); bp_pools := upd_nth idx (remove_nth i z) (bp_pools (get_bp g bk)) |}).
+  assert (C : forall x, (cnt x (pool_ids (set_bp g bk bp1)) + one x (b_id b) = cnt x (pool_ids g))%nat).
+  { intros x. destruct (set_bp_ids g bk bp1 x) as [S1 _].
+    pose proof (buf_ids_upd (get_bp g bk) idx (remove_nth i z) x z NZ) as U. fold bp1 in U.
+    pose proof (cnt_remove_nth b_id x z i b N). lia. }
+  destruct (n <=? b_cap b).
+  - left. split; [destruct bk; reflexivity|exact C].
+  - right. split; [destruct bk; reflexivity|]. split; [destruct bk; reflexivity|].
+    intros x. specialize (C x). subst bp1.
+    match goal with |- context [pool_ids (bump_next ?g0)] => change (pool_ids (bump_next g0)) with (pool_ids g0) end. lia.
+Qed.
+
+Lemma put_buf_ids : forall g bk b x,
+  g_next (act_put_buf g bk b) = g_next g /\
+  (cnt x (pool_ids (act_put_buf g bk b)) <= cnt x (pool_ids g) + one x (b_id b))%nat.
+Proof.
+  intros g bk b x. unfold act_put_buf.
+  destruct (pool_index (bp_sizes (get_bp g bk)) (b_cap b) (-1)) as [idx|]; [|split; [reflexivity|lia]].
+  destruct (b_cap b =? nth idx (bp_sizes (get_bp g bk)) 0); [|split; [reflexivity|lia]].
+  set (bp1 := {| bp_sizes := bp_sizes (get_bp g bk);
+                 bp_pools := upd_nth idx (b :: nth idx (bp_pools (get_bp g bk)) []) (bp_pools (get_bp g bk)) |}).
+  destruct (set_bp_ids g bk bp1 x) as [S1 S2]. split; [exact S2|].
+  destruct (nth_error (bp_pools (get_bp g bk)) idx) as [z|] eqn:NZ.
+  - pose proof (buf_ids_upd (get_bp g bk) idx (b :: nth idx (bp_pools (get_bp g bk)) []) x z NZ) as U. fold bp1 in U.
+    rewrite (nth_error_nth' _ _ [] _ NZ) in U. cbn [map cnt] in U. unfold one. lia.
+  - assert (bp1 = get_bp g bk).
+    { unfold bp1. rewrite (upd_nth_out _ _ _ NZ). destruct (get_bp g bk); reflexivity. }
+    assert (H1 : cnt x (buf_ids bp1) = cnt x (buf_ids (get_bp g bk))) by (rewrite H; reflexivity). lia.
+Qed.
+
+Lemma held_upd : forall ts i t t1 x,
+  nth_error ts i = Some t ->
+  (cnt x (held (upd_nth i t1 ts)) + cnt x (t_owned t) = cnt x (held ts) + cnt x (t_owned t1))%nat.
+Proof. intros. unfold held. apply cnt_flat_map_upd; assumption. Qed.
+
+Lemma one_refl : forall x, one x x = 1%nat.
+Proof. intros. unfold one. rewrite Nat.eqb_refl. reflexivity. Qed.
+Lemma one_le : forall x y, (one x y <= 1)%nat.
+Proof. intros. unfold one. destruct (Nat.eqb x y); lia. Qed.
+Lemma one_neq : forall x y, x <> y -> one x y = 0%nat.
+Proof. intros x y H. unfold one. destruct (Nat.eqb_spec x y); [contradiction|reflexivity]. Qed.
+
+(* a brand-new identity occurs nowhere *)
+Lemma uniq_fresh : forall g ts, uniq g ts -> (cnt (g_next g) (pool_ids g) + cnt (g_next g) (held ts) = 0)%nat.
+Proof. intros g ts U. destruct (U (g_next g)) as [A B]. destruct (cnt (g_next g) (pool_ids g) + cnt (g_next g) (held ts))%nat eqn:Z; [reflexivity|]. assert (g_next g < g_next g)%nat by (apply B; lia). lia. Qed.
+
+Section Own2.
+Variable E : env.
+
+Lemma cstep_uniq : forall fuel c i pk,
+  Forall tlin (c_threads c) -> uniq (c_g c) (c_threads c) ->
+  uniq (c_g (cstep E fuel c i pk)) (c_threads (cstep E fuel c i pk)).
+Proof.
+  intros fuel c i pk TL U. unfold cstep. destruct (nth_error (c_threads c) i) as [t|] eqn:N; [|exact U].
+  assert (L : tlin t). { eapply Forall_forall in TL; [exact TL|]. eapply nth_error_In; eauto. }
+  pose proof (fun t1 x => held_upd (c_threads c) i t t1 x N) as HU.
+  pose proof (uniq_fresh _ _ U) as FR.
+  unfold tstep. unfold tlin in L. destruct (t_cur t) as [p|] eqn:TC.
+  2:{ destruct (t_rest t) as [|o rest]; cbn [c_g c_threads fst snd].
+      - intros x. specialize (HU t x). destruct (U x). split; intros; [lia|]. apply H0. lia.
+      - intros x. specialize (HU {| t_cur := Some (entry E fuel o); t_rest := rest; t_done := t_done t; t_owned := t_owned t |} x).
+        cbn [t_owned] in HU. destruct (U x). split; intros; [lia|]. apply H0. lia. }
+  destruct p as [v|re k|re r k|bk n m k|bk b k|re key k|re key d k]; inversion L; subst.
+  - cbn [c_g c_threads fst snd]. intros x.
+    specialize (HU {| t_cur := None; t_rest := t_rest t; t_done := v :: t_done t; t_owned := t_owned t |} x).
+    cbn [t_owned] in HU. destruct (U x). split; intros; [lia|]. apply H0. lia.
+  - pose proof (get_runner_ids (c_g c) re pk) as G.
+    destruct (act_get_runner (c_g c) re pk) as [g1 r]. cbn [c_g c_threads fst snd]. intros x.
+    specialize (HU {| t_cur := Some (k r); t_rest := t_rest t; t_done := t_done t; t_owned := r_id r :: t_owned t |} x).
+    cbn [t_owned cnt] in HU. fold (one x (r_id r)) in HU. destruct (U x) as [U1 U2].
+    destruct G as [[G1 G2]|(G1 & G2 & G3)].
+    + specialize (G2 x). rewrite G1. split; intros; [lia|]. apply U2. lia.
+    + rewrite G3, G1, G2 in *. destruct (Nat.eq_dec x (g_next (c_g c))) as [->|NE].
+      * rewrite one_refl in HU. split; intros; lia.
+      * rewrite (one_neq _ _ NE) in HU. split; intros; [lia|]. assert (x < g_next (c_g c))%nat by (apply U2; lia). lia.
+  - match goal with X : owns _ _ = true |- _ => rewrite X; pose proof (fun x => cnt_remove_id x _ _ X) as RM end.
+    cbn [c_g c_threads fst snd]. intros x.
+    destruct (put_runner_ids (c_g c) re r x) as [P1 P2]. rewrite P1.
+    specialize (HU {| t_cur := Some k; t_rest := t_rest t; t_done := t_done t; t_owned := remove_id (r_id r) (t_owned t) |} x).
+    cbn [t_owned] in HU. specialize (RM x). destruct (U x) as [U1 U2]. split; intros; [lia|]. apply U2. lia.
+  - pose proof (get_buf_ids (c_g c) bk n m pk) as G.
+    destruct (act_get_buf (c_g c) bk n m pk) as [[g1 b] pooled]. cbn [c_g c_threads fst snd]. intros x.
+    specialize (HU {| t_cur := Some (k b pooled); t_rest := t_rest t; t_done := t_done t;
+                      t_owned := if pooled then b_id b :: t_owned t else t_owned t |} x).
+    cbn [t_owned] in HU. destruct (U x) as [U1 U2].
+    destruct G as [[G1 G2]|(G1 & G2 & G3)].
+    + specialize (G2 x). rewrite G1. pose proof (one_le x (b_id b)).
+      destruct pooled; cbn [cnt] in HU; fold (one x (b_id b)) in HU; (split; intros; [lia|]; apply U2; lia).
+    + specialize (G3 x). rewrite G1. rewrite G2 in *. destruct (Nat.eq_dec x (g_next (c_g c))) as [->|NE].
+      * destruct pooled; cbn [cnt] in HU; fold (one (g_next (c_g c)) (g_next (c_g c))) in HU; rewrite ?one_refl in HU;
+          (split; intros; lia).
+      * destruct pooled; cbn [cnt] in HU; fold (one x (g_next (c_g c))) in HU; rewrite ?(one_neq _ _ NE) in HU;
+          (split; intros; [lia|]; assert (x < g_next (c_g c))%nat by (apply U2; lia); lia).
+  - match goal with X : owns _ _ = true |- _ => rewrite X; pose proof (fun x => cnt_remove_id x _ _ X) as RM end.
+    cbn [c_g c_threads fst snd]. intros x.
+    destruct (put_buf_ids (c_g c) bk b x) as [P1 P2]. rewrite P1.
+    specialize (HU {| t_cur := Some k; t_rest := t_rest t; t_done := t_done t; t_owned := remove_id (b_id b) (t_owned t) |} x).
+    cbn [t_owned] in HU. specialize (RM x). destruct (U x) as [U1 U2]. split; intros; [lia|]. apply U2. lia.
+  - unfold act_cache_get. destruct (cache_get key (rs_cache (get_rs (c_g c) re))) as [cc oo].
+    cbn [c_g c_threads fst snd]. intros x.
+    destruct (cache_ids (c_g c) re {| rs_pool := rs_pool (get_rs (c_g c) re); rs_cache := cc |} eq_refl) as [C1 C2].
+    rewrite C1, C2.
+    specialize (HU {| t_cur := Some (k oo); t_rest := t_rest t; t_done := t_done t; t_owned := t_owned t |} x).
+    cbn [t_owned] in HU. destruct (U x). split; intros; [lia|]. apply H0. lia.
+  - unfold act_cache_add. cbn [c_g c_threads fst snd]. intros x.
+    destruct (cache_ids (c_g c) re {| rs_pool := rs_pool (get_rs (c_g c) re);
+                 rs_cache := cache_add (cfg_cache_max (e_cfg E re)) key d (rs_cache (get_rs (c_g c) re)) |} eq_refl) as [C1 C2].
+    rewrite C1, C2.
+    specialize (HU {| t_cur := Some k; t_rest := t_rest t; t_done := t_done t; t_owned := t_owned t |} x).
+    cbn [t_owned] in HU. destruct (U x). split; intros; [lia|]. apply H0. lia.
+Qed.
+
+Lemma held_spawn : forall opss, held (map spawn opss) = [].
+Proof. induction opss; cbn; auto. Qed.
+
+Lemma gstate0_ids : forall nre rs bs, pool_ids (gstate0 nre rs bs) = [].
+Proof.
+  intros. unfold pool_ids, runner_ids, buf_ids, gstate0; cbn.
+  assert (A : forall n, flat_map (fun rs0 : re_state => map r_id (rs_pool rs0)) (repeat rs_empty n) = []) by (induction n; cbn; auto).
+  assert (B : forall n, flat_map (map b_id) (repeat (@nil buffer) n) = []) by (induction n; cbn; auto).
+  rewrite A, !B. reflexivity.
+Qed.
+
+(* ownership invariant under every schedule *)
+Theorem ownership_invariant : forall fuel nre rsizes bsizes opss sched,
+  let c := run_sched E fuel {| c_g := gstate0 nre rsizes bsizes; c_threads := map spawn opss; c_fault := false |} sched in
+  c_fault c = false /\
+  forall x, (cnt x (pool_ids (c_g c)) + cnt x (held (c_threads c)) <= 1)%nat.
+Proof.
+  intros fuel nre rsizes bsizes opss sched.
+  assert (G : forall c, c_fault c = false -> Forall tlin (c_threads c) -> uniq (c_g c) (c_threads c) ->
+              c_fault (run_sched E fuel c sched) = false /\ uniq (c_g (run_sched E fuel c sched)) (c_threads (run_sched E fuel c sched))).
+  { induction sched as [|[i pk] s IH]; intros c F T U; cbn [run_sched]; [auto|].
+    destruct (cstep_lin E fuel c i pk F T) as [F1 T1]. apply IH; auto. apply cstep_uniq; auto. }
+  cbn zeta. destruct (G {| c_g := gstate0 nre rsizes bsizes; c_threads := map spawn opss; c_fault := false |}) as [F U].
+  - reflexivity.
+  - cbn [c_threads]. apply Forall_forall. intros t X. apply in_map_iff in X. destruct X as (ops & <- & _). exact I.
+  - cbn [c_g c_threads]. intros x. rewrite gstate0_ids, held_spawn. cbn. split; intros; lia.
+  - split; [exact F|]. intros x. apply U.
+Qed.
+
+End Own2.
